@@ -66,6 +66,7 @@ Definition caller_ok (pending : option (Z * Z)) (x : caller) : Prop :=
   | WaitResp => pending = Some (c_id x, c_op x)
   | Done r => r = c_op x
   | Failed => False
+  | Cancelled => True
   end.
 
 Definition pipeline_ok (s : hstate) : Prop :=
@@ -97,11 +98,11 @@ Proof. unfold step. intros ->. reflexivity. Qed.
 Lemma step_some s l s' o : step_opt s l = Some (s', o) -> step s l = s'.
 Proof. unfold step. intros ->. reflexivity. Qed.
 
-Lemma step_inv s l : Inv s -> label_ok l = true -> Inv (step s l).
+Lemma step_inv s l : Inv s -> label_ok l = true -> cancel_ok s l = true -> Inv (step s l).
 Proof.
-  intros I Hl. destruct (step_opt s l) as [[s' o]|] eqn:E; [|rewrite (step_none _ _ E); exact I].
+  intros I Hl Hcan. destruct (step_opt s l) as [[s' o]|] eqn:E; [|rewrite (step_none _ _ E); exact I].
   rewrite (step_some _ _ _ _ E). destruct I as [Ierr Ind Icall Ipipe].
-  destruct l as [c op|c|cc n| |cc op n| |c]; cbn [label_ok] in Hl; try discriminate.
+  destruct l as [c op|c|cc n| |cc op n| |c|c]; cbn [label_ok] in Hl; try discriminate.
   - (* Call *)
     cbn [step_opt] in E. destruct (known c (h_callers s)) eqn:K; [discriminate|].
     inversion E; subst s' o; clear E. apply negb_true_iff, Z.eqb_neq in Hl.
@@ -181,13 +182,61 @@ Proof.
       * pose proof (Icall y Hy) as [Hop' Hph']. split; [exact Hop'|].
         destruct (c_phase y) eqn:Py; auto.
         inversion Hph'. unfold has_id in Hc. apply Z.eqb_neq in Hc. congruence.
+  - (* Cancel *)
+    cbn [step_opt] in E. cbn [cancel_ok] in Hcan. unfold pipeline_ok in Ipipe.
+    destruct (h_pending s) as [[c' op']|] eqn:P.
+    + destruct (Z.eqb c' c) eqn:Ec.
+      * (* the owner: only allowed once the response is in *)
+        apply Z.eqb_eq in Ec. subst c'.
+        destruct (h_resp s) as [[op n]|] eqn:R; [|try rewrite Z.eqb_refl in Hcan; cbn in Hcan; discriminate].
+        inversion E; subst s' o; clear E.
+        constructor; cbn [h_err h_callers h_pending h_sem h_resp h_to h_from].
+        -- exact Ierr.
+        -- rewrite map_id_set_phase. exact Ind.
+        -- intros y' Hy'. apply in_set_phase in Hy'. destruct Hy' as [y [Hy ->]].
+           destruct (has_id c y) eqn:Hid.
+           ++ pose proof (Icall y Hy) as [Hop _]. split; cbn; auto.
+           ++ pose proof (Icall y Hy) as [Hop' Hph']. split; [exact Hop'|].
+              destruct (c_phase y) eqn:Py; auto.
+              inversion Hph'. unfold has_id in Hid. apply Z.eqb_neq in Hid. congruence.
+        -- destruct Ipipe as [Hs [_ Hcase]].
+           destruct Hcase as [[Hr _]|[[Hr _]|[n' [Hr [Hn [Ht Hf]]]]]]; try congruence.
+           unfold pipeline_ok. cbn. auto.
+      * (* a queued caller *)
+        destruct (find_waiting c (h_callers s)) as [x|] eqn:F; [|discriminate].
+        inversion E; subst s' o; clear E.
+        apply Z.eqb_neq in Ec.
+        constructor; cbn [h_err h_callers h_pending h_sem h_resp h_to h_from with_callers].
+        -- exact Ierr.
+        -- rewrite map_id_set_phase. exact Ind.
+        -- intros y' Hy'. apply in_set_phase in Hy'. destruct Hy' as [y [Hy ->]].
+           destruct (has_id c y) eqn:Hid'.
+           ++ pose proof (Icall y Hy) as [Hop _]. split; cbn; auto.
+           ++ rewrite P. exact (Icall y Hy).
+        -- unfold pipeline_ok. cbn [h_err h_callers h_pending h_sem h_resp h_to h_from with_callers]. rewrite P.
+           destruct Ipipe as [Hs [[y [Hy [Hyi [Hyo Hyp]]]] Hcase]]. split; [exact Hs|]. split; [|exact Hcase].
+           exists y. split; [|auto]. unfold set_phase. apply in_map_iff. exists y.
+           assert (has_id c y = false) as ->; [|auto].
+           unfold has_id. apply Z.eqb_neq. congruence.
+    + destruct (find_waiting c (h_callers s)) as [x|] eqn:F; [|discriminate].
+      inversion E; subst s' o; clear E.
+      constructor; cbn [h_err h_callers h_pending h_sem h_resp h_to h_from with_callers].
+      * exact Ierr.
+      * rewrite map_id_set_phase. exact Ind.
+      * intros y' Hy'. apply in_set_phase in Hy'. destruct Hy' as [y [Hy ->]].
+        destruct (has_id c y) eqn:Hid'.
+        -- pose proof (Icall y Hy) as [Hop _]. split; cbn; auto.
+        -- rewrite P. exact (Icall y Hy).
+      * unfold pipeline_ok. cbn [h_err h_callers h_pending h_sem h_resp h_to h_from with_callers]. rewrite P.
+        exact Ipipe.
 Qed.
 
-Lemma run_inv ls : forall s, contract_ok ls = true -> Inv s -> Inv (run s ls).
+Lemma run_inv ls : forall s, wf_run s ls = true -> Inv s -> Inv (run s ls).
 Proof.
   induction ls as [|l ls IH]; intros s C I; cbn [run]; [exact I|].
-  cbn in C. apply andb_true_iff in C. destruct C as [C1 C2].
-  apply IH; [exact C2 | apply step_inv; assumption].
+  cbn [wf_run] in C. apply andb_true_iff in C. destruct C as [C12 C3].
+  apply andb_true_iff in C12. destruct C12 as [C1 C2].
+  apply IH; [exact C3 | apply step_inv; assumption].
 Qed.
 
 (* ------------------------------------------------------------------ consequences of the invariant *)
@@ -235,6 +284,7 @@ Proof.
     + discriminate.
     + subst. apply Z.eqb_refl.
     + contradiction.
+    + reflexivity.
 Qed.
 
 (* ------------------------------------------------------------------ progress and termination *)
@@ -305,7 +355,7 @@ Lemma measure_decreases s l s' o :
   internal l = true -> step_opt s l = Some (s', o) -> (measure s' < measure s)%nat.
 Proof.
   intros Hi E. unfold measure.
-  destruct l as [c op|c|cc n| |cc op n| |c]; try discriminate; cbn [step_opt] in E.
+  destruct l as [c op|c|cc n| |cc op n| |c|c]; try discriminate; cbn [step_opt] in E.
   - (* Acquire *)
     destruct (h_sem s); [discriminate|].
     destruct (find_waiting c (h_callers s)) as [x|] eqn:F; [|discriminate].
@@ -337,7 +387,36 @@ Proof.
       fold (weight_sum (h_callers s)); fold (weight_sum (set_phase c (Done op) (h_callers s))); lia.
 Qed.
 
-(* from every state reachable under the contract, a bounded number of internal steps leads
+Lemma internal_cancel_ok s l : internal l = true -> cancel_ok s l = true.
+Proof. destruct l; cbn; intros H; try reflexivity; discriminate. Qed.
+
+(* internal steps that satisfy the contract satisfy the run hypotheses *)
+Lemma wf_run_internal ls : forall s, forallb internal ls = true -> contract_ok ls = true -> wf_run s ls = true.
+Proof.
+  induction ls as [|l ls IH]; intros s Hi Hc; cbn [wf_run]; [reflexivity|].
+  cbn in Hi, Hc. apply andb_true_iff in Hi. apply andb_true_iff in Hc.
+  destruct Hi as [Hi1 Hi2], Hc as [Hc1 Hc2].
+  rewrite Hc1, (internal_cancel_ok s l Hi1), (IH _ Hi2 Hc2). reflexivity.
+Qed.
+
+(* without cancellations the run hypotheses are just the contract *)
+Lemma wf_run_no_cancel ls : forall s,
+  forallb (fun l => match l with Cancel _ => false | _ => true end) ls = true ->
+  contract_ok ls = true -> wf_run s ls = true.
+Proof.
+  induction ls as [|l ls IH]; intros s Hn Hc; cbn [wf_run]; [reflexivity|].
+  cbn in Hn, Hc. apply andb_true_iff in Hn. apply andb_true_iff in Hc.
+  destruct Hn as [Hn1 Hn2], Hc as [Hc1 Hc2].
+  rewrite Hc1, (IH _ Hn2 Hc2). destruct l; try reflexivity. discriminate.
+Qed.
+
+Lemma wf_run_app a : forall b s, wf_run s a = true -> wf_run (run s a) b = true -> wf_run s (a ++ b) = true.
+Proof.
+  induction a as [|x a IH]; intros b s Ha Hb; cbn [app wf_run run] in *; [exact Hb|].
+  apply andb_true_iff in Ha. destruct Ha as [Ha1 Ha2]. rewrite Ha1. cbn. apply IH; assumption.
+Qed.
+
+(* from every state reachable under the hypotheses, a bounded number of internal steps leads
    to quiescence: nobody waits forever, later commands are not blocked *)
 Lemma eventually_quiescent_aux n : forall s, Inv s -> (measure s <= n)%nat ->
   exists ls, forallb internal ls = true /\ contract_ok ls = true /\
@@ -354,7 +433,8 @@ Proof.
     + destruct (progress s I Q) as [l [Hi [Hl Hs]]].
       destruct (step_opt s l) as [[s' o]|] eqn:E; [|congruence].
       pose proof (measure_decreases _ _ _ _ Hi E) as D.
-      assert (Inv s') as I' by (rewrite <- (step_some _ _ _ _ E); apply step_inv; assumption).
+      assert (Inv s') as I'.
+      { rewrite <- (step_some _ _ _ _ E). apply step_inv; [assumption | assumption | apply internal_cancel_ok; exact Hi]. }
       destruct (IH s' I' ltac:(lia)) as [ls [H1 [H2 [H3 H4]]]].
       exists (l :: ls). cbn. unfold contract_ok in H2. rewrite Hi, Hl, H1, H2. cbn.
       rewrite (step_some _ _ _ _ E). repeat split; auto. lia.
@@ -375,19 +455,23 @@ Proof.
     intros H. inversion H; subst. rewrite (step_some _ _ _ _ E). apply (IH _ _ _ A).
 Qed.
 
-(* ------------------------------------------------------------------ the three statements *)
-Theorem at_most_one_outstanding ls : contract_ok ls = true -> outstanding (run h_init ls) <= 1.
+(* ------------------------------------------------------------------ the statements
+   hypotheses [wf_run h_init ls]: the controller contract on every label, and no cancellation
+   of the caller that owns a still unanswered command (cancelling queued callers, the owner
+   after its response arrived, at any point of any schedule, is allowed) *)
+Theorem at_most_one_outstanding ls : wf_run h_init ls = true -> outstanding (run h_init ls) <= 1.
 Proof. intros C. apply inv_outstanding. apply run_inv; [exact C | exact inv_init]. Qed.
 
-Theorem reply_matches_caller ls : contract_ok ls = true ->
+Theorem reply_matches_caller ls : wf_run h_init ls = true ->
   forall x r, In x (h_callers (run h_init ls)) -> c_phase x = Done r -> r = c_op x.
 Proof. intros C. apply inv_reply_matches. apply run_inv; [exact C | exact inv_init]. Qed.
 
-Theorem every_caller_answered ls : contract_ok ls = true ->
+(* every caller is answered with its own response, or was cancelled by its own task *)
+Theorem every_caller_answered ls : wf_run h_init ls = true ->
   quiescent (run h_init ls) = true -> all_answered (run h_init ls) = true.
 Proof. intros C. apply inv_quiescent_answered. apply run_inv; [exact C | exact inv_init]. Qed.
 
-Theorem no_caller_waits_forever ls : contract_ok ls = true ->
+Theorem no_caller_waits_forever ls : wf_run h_init ls = true ->
   exists ls', forallb internal ls' = true /\ contract_ok ls' = true /\
               all_answered (run h_init (ls ++ ls')) = true /\
               (length ls' <= measure (run h_init ls))%nat.
@@ -398,12 +482,26 @@ Proof.
   assert (forall a b s, run s (a ++ b) = run (run s a) b) as run_app.
   { induction a as [|x a IHa]; intros b s; cbn; [reflexivity | apply IHa]. }
   rewrite run_app. apply inv_quiescent_answered; [|exact H3].
-  apply run_inv; assumption.
+  apply run_inv; [apply wf_run_internal; assumption | exact I].
 Qed.
 
-Theorem host_never_fails ls : contract_ok ls = true ->
+Theorem host_never_fails ls : wf_run h_init ls = true ->
   h_err (run h_init ls) = false /\ forall x, In x (h_callers (run h_init ls)) -> c_phase x <> Failed.
 Proof. intros C. apply inv_no_failure. apply run_inv; [exact C | exact inv_init]. Qed.
+
+(* a cancelled caller changes nothing for the others: cancelling a queued caller leaves the
+   semaphore, the pending command and both FIFOs as they are *)
+Lemma cancel_queued_frame s c s' o :
+  step_opt s (Cancel c) = Some (s', o) -> cancel_ok s (Cancel c) = true ->
+  (exists c' op, h_pending s = Some (c', op) /\ c' <> c) \/ h_pending s = None ->
+  h_sem s' = h_sem s /\ h_pending s' = h_pending s /\ h_resp s' = h_resp s /\
+  h_to s' = h_to s /\ h_from s' = h_from s.
+Proof.
+  intros E _ H. cbn [step_opt] in E. destruct H as [[c' [op [P N]]]|P]; rewrite P in E.
+  - destruct (Z.eqb c' c) eqn:Ec; [apply Z.eqb_eq in Ec; congruence|].
+    destruct (find_waiting c (h_callers s)); [|discriminate]. inversion E; subst. cbn. rewrite P. auto.
+  - destruct (find_waiting c (h_callers s)); [|discriminate]. inversion E; subst. cbn. rewrite P. auto.
+Qed.
 
 (* ------------------------------------------------------------------ the hypotheses are needed *)
 (* a controller that swallows a command (D03a/b/c on the unrepaired tree): the caller waits
@@ -446,3 +544,22 @@ Lemma opcode_zero_refuted :
   let s := run h_init [Call 1 0; Acquire 1; CtrlReply true 1; Deliver] in
   quiescent s = true /\ all_answered s = false /\ map phase_code (h_callers s) = [(1, 1, 0)] /\ h_sem s = false.
 Proof. vm_compute. auto. Qed.
+
+(* D03m: cancelling the owner of an unanswered command frees the semaphore while the command is
+   still with the controller: the next caller sends (two commands outstanding), receives the
+   response to the cancelled caller's command, and its own response is dropped *)
+Lemma owner_cancel_refuted :
+  let ls := [Call 1 4105; Call 2 8216; Acquire 1; Cancel 1; Acquire 2] in
+  contract_ok ls = true /\ wf_run h_init ls = false /\ outstanding (run h_init ls) = 2 /\
+  let s := run h_init (ls ++ [CtrlReply true 1; Deliver; Resume 2; CtrlReply true 1; Deliver]) in
+  map phase_code (h_callers s) = [(1, 4, 0); (2, 2, 4105)] /\ all_answered s = false /\ quiescent s = true.
+Proof. vm_compute. repeat split. Qed.
+
+(* cancelling a queued caller, or the owner once its response is in, is harmless *)
+Lemma cancel_examples :
+  let ls := [Call 1 4105; Call 2 8216; Call 3 3092; Acquire 1; Cancel 2; CtrlReply true 1; Deliver; Cancel 1;
+             Acquire 3; CtrlReply true 1; Deliver; Resume 3] in
+  wf_run h_init ls = true /\
+  map phase_code (h_callers (run h_init ls)) = [(1, 4, 0); (2, 4, 0); (3, 2, 3092)] /\
+  all_answered (run h_init ls) = true.
+Proof. vm_compute. repeat split. Qed.
